@@ -585,7 +585,7 @@ def run_groups(ctx, n):
         nsteps = rr.randint(k + 4, 2 * k + 8)
         case = {"mode": mode, "D": D, "dt": dt, "nsteps": nsteps, "inflow": [rr.choice([0.0, 10.0, round(rr.random() * 100, 2)]) for _ in range(nsteps + 1)],
                 "s": rr.randint(0, 3), "pulse": rr.choice([1.0, 100.0]), "move": rr.choice([0.2 / dt, 0.5 / dt, 0.9 / dt, 1.0 / dt, 3.0 / dt]), "back": rr.choice([0.0, 0.0, 0.3 / dt]),
-                "D2": rr.choice([2, 3, 5]) * dt, "jprop": rr.choice([1.0, 0.5, 0.8, 2.0])}
+                "D2": rr.choice([2, 3, 5]) * dt, "jprop": [0.5, 1.0, 0.8, 2.0][(i // 4) % 4]}
         check_group(ctx, case)
 
 
